@@ -8,7 +8,7 @@ from mirsym import models as MM, sym as SY, jsonmodel as JM
 from vf import explore as XP, par
 from vf.explore import Summary
 from .common import *
-from . import lexjob as LJ, pubconfirm as PC
+from . import lexjob as LJ, pubconfirm as PC, lexref as LR
 
 PROG = None; SEED = 0
 
@@ -118,6 +118,24 @@ def job_field(item):
 def task(item):
     return {'spell': job_spell, 'field': job_field}[item[0]](item[1:])
 
+def confirm_values_by_search(text, nd):
+    """several lexemes in one text: every literal / raw string of the text is searched on its own place in a multi-select list built from the SAME text
+    (the lexer sees all lexemes together); the values must be the reference lexer's"""
+    ex = PC.ConcreteEx()
+    try: toks = LR.ref_tokenize(ex, list(text))
+    except Exception: return None
+    lits = [(p_, pl) for p_, k_, pl in toks if k_ == 'Literal']
+    if len(lits) < 2: return None
+    ends = [p_ for p_, _, _ in toks]
+    pieces = []
+    for p_, pl in lits:
+        nxt = min(e for e in ends if e > p_)
+        pieces.append(text.encode()[p_:nxt].decode().strip())
+    expr = '[' + ', '.join(pieces) + ']'
+    want = [PC.var_to_tagged(pl) for _, pl in lits]
+    a = nd.request({'op': 'search', 'expr': expr, 'doc': None})
+    return (a.get('kind') != 'ok' or a.get('value') != want), {'expr': expr, 'expected': want, 'native': a}
+
 def confirm(c, nd, nr):
     if c['key'].endswith('panic'):
         obs = {'dev': nd.request(c['request']), 'release': nr.request(c['request'])}
@@ -127,6 +145,8 @@ def confirm(c, nd, nr):
         return any(o.get('kind') != 'ok' or o.get('value') != c['expected'] for o in obs.values()), obs
     # text -> value differences found against the reference lexer: observable through compile/search?
     text = c['witness']['expr']
+    r2 = confirm_values_by_search(text, nd)
+    if r2 is not None and r2[0]: return True, r2[1]
     r = PC.confirm_literal_value(text, nd)
     if r is not None and r[0]: return True, r[1]
     return PC.confirm_text(text, nd, nr, open_exts=OPEN_EXTS)
@@ -162,8 +182,8 @@ def run(run):
     for a_, b_ in (("'", '`'), ('`', "'"), ('"', '`'), ('`', '"'), ("'", '"')):
         for body in ('1', 'null', '"a"', 'true'):
             if (a_ == '"' or b_ == '"') and body == '"a"': continue
-            specs.append(list(a_ + body + a_ + ' ' + b_ + body + b_))
-    specs += [["'", ('set', '1ntx'), "'", ' ', '`', ('set', '1ntx'), '`']]
+            specs.append(list(a_ + body + a_ + ' == ' + b_ + body + b_))
+    specs += [["'", ('set', '1ntx'), "'", ' ', '=', '=', ' ', '`', ('set', '1ntx'), '`']]
     # \u escapes at the edges of the surrogate ranges (pairs, lone halves, reversed pairs) in quoted identifiers and string literals
     for hi, lo in (('d800', 'dc00'), ('dbff', 'dfff'), ('dbff', 'dc00'), ('dbfe', 'dfff'), ('d7ff', 'dc00'), ('dc00', 'd800'), ('d800', 'dbff'), ('dbff', 'e000')):
         specs.append(list('"\\u' + hi + '\\u' + lo + '"')); specs.append(list('`"\\u' + hi + '\\u' + lo + '"`'))
